@@ -10,7 +10,7 @@ def rF(A, shape):
     return np.reshape(A, shape, order='F')
 
 
-def h_left_step(ctx, d, i, n, rl, rr, inplace, layout='C'):
+def h_left_step(ctx, d, i, n, rl, rr, inplace, layout='C', alias=False):
     """orthogonalize_left on core i := Q R (Q Householder frame, R arbitrary,
     rank deficient included); all other cores free."""
     ranks = [1] + [2] * (d - 1) + [1]
@@ -28,6 +28,10 @@ def h_left_step(ctx, d, i, n, rl, rr, inplace, layout='C'):
     expect(ctx, 'qr', M, (Q, R))
     if layout == 'F':
         Y = [np.asfortranarray(G) for G in Y]          # e.g. cores that came out of LAPACK
+    if alias:
+        # the same array object at two positions of the list (a tensor with a repeated core)
+        assert Y[i + 2].shape == Y[i + 1].shape
+        Y[i + 2] = Y[i + 1]
     Y0 = [G.copy() for G in Y]
     objs = list(Y)
     Z = teneva.orthogonalize_left(Y, i, inplace=inplace)
@@ -277,6 +281,14 @@ def h_concrete_scales(ctx):
                 if ok_fin:
                     Fz = teneva.full(Z) * 2. ** p
                     ok_same = ok_same and bool(np.linalg.norm(Fz - F) <= 1e-8 * np.linalg.norm(F))
+    # cores of integer dtype (hand-written tensors)
+    Yi = [np.array([[[1, 2], [0, 1], [3, -1]]]), np.array([[[2, 1], [1, 0]], [[0, 1], [1, 3]]]), np.array([[[1], [2]], [[-1], [1]]])]
+    Fi = teneva.full(Yi)
+    for k in range(3):
+        Z = teneva.orthogonalize(Yi, k)
+        ok_same = ok_same and bool(np.linalg.norm(teneva.full(Z) - Fi) <= 1e-10 * np.linalg.norm(Fi))
+        Z, p = teneva.orthogonalize(Yi, k, use_stab=True)
+        ok_same = ok_same and bool(np.linalg.norm(teneva.full(Z) * 2. ** p - Fi) <= 1e-10 * np.linalg.norm(Fi))
     ctx.claim('finite_cores', bool(ok_fin))
     ctx.claim('orthonormal_unfoldings', bool(ok_orth))
     ctx.claim('tensor_preserved', bool(ok_same))
@@ -305,6 +317,9 @@ def instances(tier):
     for (d, i, n, rl, rr) in right:
         for inplace in (False, True):
             out.append({'func': 'h_right_step', 'params': {'d': d, 'i': i, 'n': n, 'rl': rl, 'rr': rr, 'inplace': inplace}})
+    # a repeated core object next to the pair that is worked on
+    for inplace in (True, False):
+        out.append({'func': 'h_left_step', 'params': {'d': 4, 'i': 0, 'n': 2, 'rl': 1, 'rr': 2, 'inplace': inplace, 'alias': True}})
     # Fortran-ordered cores (what LAPACK hands back): the order='F' unfoldings are views of the argument
     for (d, i, n, rl, rr) in [(2, 0, 2, 1, 2), (3, 1, 2, 2, 2), (3, 1, 1, 2, 2)]:
         out.append({'func': 'h_left_step', 'params': {'d': d, 'i': i, 'n': n, 'rl': rl, 'rr': rr, 'inplace': False, 'layout': 'F'}})
